@@ -151,6 +151,45 @@ where
     T: Logos<'s, Source = str, Extras = ()> + Debug,
     T::Error: ErrTag,
 {
+    if let Some(cuts) = mode.strip_prefix('f') {
+        // chunked feeding (C07): partial lexers over growing prefixes, each resumed where the one before said `None`,
+        // then an ordinary lexer over everything; printed like mode "n"
+        let mut out = String::new();
+        let mut q = 0usize;
+        let ks: Vec<usize> = cuts.split(',').filter_map(|k| k.parse().ok()).collect();
+        for (j, k) in ks.iter().map(|&k| Some(k)).chain([None]).enumerate() {
+            let _ = j;
+            let buf = match k {
+                Some(k) if k <= src.len() && k >= q && src.is_char_boundary(k) => &src[..k],
+                Some(_) => continue,
+                None => src,
+            };
+            let mut lex: Lexer<'s, T> = if k.is_some() { Lexer::new_partial(buf) } else { Lexer::new(buf) };
+            lex.bump(q);
+            let mut n = 0usize;
+            loop {
+                n += 1;
+                if n > 4 * src.len() + 16 {
+                    out.push_str("LOOP");
+                    return out;
+                }
+                let item = lex.next();
+                let sp = lex.span();
+                match item {
+                    Some(Ok(t)) => write!(out, "{}:{}-{} ", vname(&t), sp.start, sp.end).unwrap(),
+                    Some(Err(e)) => write!(out, "!{}:{}-{} ", e.tag(), sp.start, sp.end).unwrap(),
+                    None => {
+                        q = sp.start;
+                        if k.is_none() {
+                            write!(out, ".{}-{}", sp.start, sp.end).unwrap();
+                        }
+                        break;
+                    }
+                }
+            }
+        }
+        return out;
+    }
     let mut lex: Lexer<'s, T> = if mode == "p" { Lexer::new_partial(src) } else { Lexer::new(src) };
     let _ = trace_str();
     calls_reset();
@@ -202,6 +241,45 @@ where
     T: Logos<'s, Source = [u8], Extras = ()> + Debug,
     T::Error: ErrTag,
 {
+    if let Some(cuts) = mode.strip_prefix('f') {
+        // chunked feeding (C07): partial lexers over growing prefixes, each resumed where the one before said `None`,
+        // then an ordinary lexer over everything; printed like mode "n"
+        let mut out = String::new();
+        let mut q = 0usize;
+        let ks: Vec<usize> = cuts.split(',').filter_map(|k| k.parse().ok()).collect();
+        for (j, k) in ks.iter().map(|&k| Some(k)).chain([None]).enumerate() {
+            let _ = j;
+            let buf = match k {
+                Some(k) if k <= src.len() && k >= q => &src[..k],
+                Some(_) => continue,
+                None => src,
+            };
+            let mut lex: Lexer<'s, T> = if k.is_some() { Lexer::new_partial(buf) } else { Lexer::new(buf) };
+            lex.bump(q);
+            let mut n = 0usize;
+            loop {
+                n += 1;
+                if n > 4 * src.len() + 16 {
+                    out.push_str("LOOP");
+                    return out;
+                }
+                let item = lex.next();
+                let sp = lex.span();
+                match item {
+                    Some(Ok(t)) => write!(out, "{}:{}-{} ", vname(&t), sp.start, sp.end).unwrap(),
+                    Some(Err(e)) => write!(out, "!{}:{}-{} ", e.tag(), sp.start, sp.end).unwrap(),
+                    None => {
+                        q = sp.start;
+                        if k.is_none() {
+                            write!(out, ".{}-{}", sp.start, sp.end).unwrap();
+                        }
+                        break;
+                    }
+                }
+            }
+        }
+        return out;
+    }
     let mut lex: Lexer<'s, T> = if mode == "p" { Lexer::new_partial(src) } else { Lexer::new(src) };
     let _ = trace_str();
     calls_reset();
